@@ -18,6 +18,7 @@ import (
 	"fmt"
 	"net/url"
 	"regexp"
+	"strings"
 
 	"github.com/oxia-db/oxia/common/compare"
 	"github.com/oxia-db/oxia/common/constant"
@@ -349,8 +350,26 @@ func doSecondaryGet(db kv.DB, req *proto.GetRequest) (primaryKey string, seconda
 		it.SeekGE(searchKey)
 	}
 
+	// All the entries of an index are stored under the same key prefix
+	indexKeyPrefix := fmt.Sprintf(secondaryIdxRangePrefixFormat, indexName, "")
+
+	if req.ComparisonType == proto.KeyComparisonType_FLOOR && !it.Valid() {
+		// The search key is past the last key of the db: the floor is the last entry before it
+		it.SeekLT(searchKey)
+	}
+
 	for it.Valid() {
 		itKey := it.Key()
+		if !strings.HasPrefix(itKey, indexKeyPrefix) {
+			// We are outside the requested index
+			if req.ComparisonType == proto.KeyComparisonType_FLOOR &&
+				compare.CompareWithSlash([]byte(itKey), []byte(searchKey)) > 0 {
+				// The search key is past the last entry of the index: step back into it
+				it.Prev()
+				continue
+			}
+			return "", "", nil
+		}
 		primaryKey, secondaryKey, err = secondaryIndexPrimaryAndSecondaryKey(itKey)
 		if err != nil && !errors.Is(err, errFailedToParseSecondaryKey) {
 			return "", "", err
